@@ -481,6 +481,332 @@ theorem marker_protocol_spsc_never_parks (ops : List Op1)
 example : (run1 init1 [.spill 10 false, .sendSpilled, .poll, .spill 20 true, .poll, .sendSpilled,
     .poll, .poll, .poll, .sendMem 30, .poll]).out = [10, 20, 30] := by decide
 
+/-! #### every `Spilled` marker has exactly one pushed batch behind it (and what happens otherwise) -/
+
+theorem step1_poll_owed (s s' : St1) (hs : step1 s .poll = some s') : s'.owed = s.owed := by
+  simp only [step1] at hs
+  cases hr : s.rstate with
+  | readingMemory =>
+    rw [hr] at hs
+    simp only at hs
+    cases hc : s.chan with
+    | nil => rw [hc] at hs; cases hs
+    | cons m r => rw [hc] at hs; cases m <;> simp only at hs <;> cases hs <;> rfl
+  | readingSpilled =>
+    rw [hr] at hs
+    simp only at hs
+    cases hf : s.finishedFiles with
+    | nil =>
+      rw [hf] at hs
+      simp only at hs
+      cases hc : s.cur with
+      | none => rw [hc] at hs; cases hs
+      | some f =>
+        rw [hc] at hs
+        cases f with
+        | nil => cases hs
+        | cons b bs => cases hs; rfl
+    | cons f fs =>
+      rw [hf] at hs
+      cases f with
+      | nil => cases hs; rfl
+      | cons b bs => cases hs; rfl
+
+/-- pushed batches = accepted markers + the one batch whose marker is being sent -/
+def InvG (s : St1) (g : Ghost) : Prop := g.pushed = g.markersSent + s.owed ∧ s.owed ≤ 1
+
+theorem invG_step (s s' : St1) (g : Ghost) (op : Op1) (h : InvG s g) (hs : step1 s op = some s') :
+    InvG s' (ghostStep g op) := by
+  unfold InvG at *
+  cases op with
+  | spill v full =>
+    simp only [step1] at hs
+    split at hs
+    · cases hs
+    · rename_i hc
+      have ho : s.owed = 0 := by
+        false_or_by_contra; rename_i hne; exact hc (Or.inr hne)
+      split at hs <;> cases hs <;> simp only [ghostStep] <;> omega
+  | sendSpilled =>
+    simp only [step1] at hs
+    split at hs
+    · cases hs
+    · split at hs
+      · cases hs; simp only [ghostStep]; omega
+      · cases hs
+  | sendMem v =>
+    simp only [step1] at hs
+    split at hs
+    · cases hs
+    · split at hs
+      · cases hs; simp only [ghostStep]; omega
+      · cases hs
+  | sendDone =>
+    simp only [step1] at hs
+    split at hs
+    · cases hs
+    · split at hs
+      · cases hs; simp only [ghostStep]; omega
+      · cases hs
+  | dropSink =>
+    simp only [step1] at hs
+    split at hs
+    · cases hs
+    · cases hs; simp only [ghostStep]; omega
+  | poll =>
+    have := step1_poll_owed s s' hs
+    simp only [ghostStep]; omega
+
+theorem invG_run (s : St1) (g : Ghost) (ops : List Op1) (h : InvG s g) :
+    InvG (run1g s g ops).1 (run1g s g ops).2 := by
+  induction ops generalizing s g with
+  | nil => exact h
+  | cons op ops ih =>
+    simp only [run1g]
+    cases hs : step1 s op with
+    | none => exact ih s g h
+    | some s' => exact ih s' (ghostStep g op) (invG_step s s' g op h hs)
+
+theorem run1g_fst (s : St1) (g : Ghost) (ops : List Op1) : (run1g s g ops).1 = run1 s ops := by
+  induction ops generalizing s g with
+  | nil => rfl
+  | cons op ops ih =>
+    simp only [run1g, run1]
+    cases hs : step1 s op with
+    | none => exact ih s g
+    | some s' => exact ih s' (ghostStep g op)
+
+/-- **every `Spilled` marker sent corresponds to exactly one batch pushed to the pool** (single
+    producer pool, code WITH the zero-row guard): after any schedule the number of pushed batches is
+    the number of accepted markers plus the at most one batch whose marker is being sent; between
+    two `send` calls (`owed = 0`) the two numbers are equal; and (Inv1) the batches still stored are
+    exactly the markers in flight + that batch + the one the reader is fetching. -/
+theorem spilled_markers_eq_pushed_batches (ops : List Op1) :
+    let r := run1g init1 ghost0 ops
+    r.2.pushed = r.2.markersSent + r.1.owed ∧ r.1.owed ≤ 1 ∧ r.2.markersSent ≤ r.2.pushed ∧
+    (r.1.owed = 0 → r.2.markersSent = r.2.pushed) ∧
+    stored1 r.1 = markers r.1.chan + r.1.owed + (if r.1.rstate = .readingSpilled then 1 else 0) := by
+  intro r
+  have hG : InvG r.1 r.2 := invG_run init1 ghost0 ops (by simp [InvG, init1, ghost0])
+  have hI : Inv1 r.1 := by
+    show Inv1 (run1g init1 ghost0 ops).1
+    rw [run1g_fst]
+    exact inv1_run init1 ops (by simp [Inv1, init1, stored1, markers])
+  unfold InvG at hG
+  unfold Inv1 at hI
+  refine ⟨hG.1, hG.2, by omega, by omega, hI⟩
+
+/-- the schedule of seeded defect C10-2 on the protocol WITHOUT the guard: a zero-row batch takes the
+    spill path (`spillEmpty`: nothing stored, marker owed and sent); the reader takes the marker and
+    waits for the pool; the producer sends the in-memory batch 1, then spills batch 2; the reader
+    returns 2 for the phantom marker, then 1. -/
+def phantomSchedule : List OpP :=
+  [.spillEmpty, .base .sendSpilled, .base .poll, .base (.sendMem 1), .base (.spill 2 false),
+   .base .poll, .base .poll]
+
+/-- **a marker without a batch breaks FIFO**: on `phantomSchedule` the values were sent in the order
+    1, 2 and are delivered in the order 2, 1; already after the first two steps one marker has been
+    sent with no batch pushed (`spilled_markers_eq_pushed_batches` fails), and the reader is in
+    `ReadingSpilled` with nothing stored. -/
+theorem phantom_marker_breaks_fifo :
+    (runPg init1 ghost0 phantomSchedule).2.sent = [1, 2] ∧
+    (runPg init1 ghost0 phantomSchedule).1.out = [2, 1] ∧
+    ((runPg init1 ghost0 phantomSchedule).1.out).isPrefixOf (runPg init1 ghost0 phantomSchedule).2.sent = false ∧
+    (runPg init1 ghost0 (phantomSchedule.take 2)).2.markersSent = 1 ∧
+    (runPg init1 ghost0 (phantomSchedule.take 2)).2.pushed = 0 ∧
+    (runPg init1 ghost0 (phantomSchedule.take 3)).1.rstate = .readingSpilled ∧
+    stored1 (runPg init1 ghost0 (phantomSchedule.take 3)).1 = 0 := by decide
+
+/-- the same producer program WITH the guard (the zero-row batch never reaches `send`) delivers in
+    sending order -/
+example : (run1g init1 ghost0 [.sendMem 1, .poll, .spill 2 false, .sendSpilled, .poll, .poll]).1.out = [1, 2] := by
+  decide
+
+/-! #### FIFO of the single-producer protocol (code WITH the zero-row guard) -/
+
+theorem storedL_length (s : St1) : (storedL s).length = stored1 s := by
+  simp [stored1, storedL, List.length_flatten]
+
+theorem inflightOf_snoc (rs : Bool) (chan : List Msg) (st : List Nat) (v : Nat)
+    (h : rs = true → st ≠ []) : inflightOf rs chan (st ++ [v]) = inflightOf rs chan st ++ [v] := by
+  cases rs with
+  | false => unfold inflightOf; split <;> simp
+  | true =>
+    have hne := h rfl
+    cases st with
+    | nil => exact absurd rfl hne
+    | cons x xs => unfold inflightOf; split <;> simp
+
+def InvF (s : St1) (g : Ghost) : Prop :=
+  Inv1 s ∧ s.chan.length ≤ 1 ∧ g.sent = s.out ++ inflight s
+
+theorem invF_step (s s' : St1) (g : Ghost) (op : Op1) (h : InvF s g) (hs : step1 s op = some s') :
+    InvF s' (ghostStep g op) := by
+  obtain ⟨hI, hc, hS⟩ := h
+  have hI' := inv1_step s s' op hI hs
+  have hlen := storedL_length s
+  unfold Inv1 at hI
+  refine ⟨hI', ?_⟩
+  cases op with
+  | spill v full =>
+    simp only [step1] at hs
+    split at hs
+    · cases hs
+    · rename_i hcnd
+      have ho : s.owed = 0 := by
+        false_or_by_contra; rename_i hne; exact hcnd (Or.inr hne)
+      have hne : (s.rstate == RState.readingSpilled) = true → storedL s ≠ [] := by
+        intro hr h0
+        have hr' : s.rstate = .readingSpilled := by simpa using hr
+        rw [h0] at hlen
+        simp [hr', ho] at hI
+        simp at hlen
+        omega
+      split at hs <;> cases hs
+      · refine ⟨hc, ?_⟩
+        have hst : storedL { s with finishedFiles := s.finishedFiles ++ [s.cur.getD [] ++ [v]], cur := none, owed := 1 } = storedL s ++ [v] := by
+          simp [storedL]
+        simp only [ghostStep, inflight, hst, hS]
+        rw [inflightOf_snoc _ _ _ _ hne]
+        simp
+      · refine ⟨hc, ?_⟩
+        have hst : storedL { s with cur := some (s.cur.getD [] ++ [v]), owed := 1 } = storedL s ++ [v] := by
+          simp [storedL]
+        simp only [ghostStep, inflight, hst, hS]
+        rw [inflightOf_snoc _ _ _ _ hne]
+        simp
+  | sendSpilled =>
+    simp only [step1] at hs
+    split at hs
+    · cases hs
+    · split at hs
+      · rename_i ho hce
+        cases hs
+        have hch : s.chan = [] := by simpa using hce
+        refine ⟨by simp, ?_⟩
+        simp [ghostStep, hS, inflight, inflightOf, storedL, hch]
+      · cases hs
+  | sendMem v =>
+    simp only [step1] at hs
+    split at hs
+    · cases hs
+    · split at hs
+      · rename_i ho hce
+        cases hs
+        have hch : s.chan = [] := by simpa using hce
+        have ho' : s.owed = 0 := by
+          false_or_by_contra; rename_i hne; exact ho hne
+        refine ⟨by simp, ?_⟩
+        cases hr : s.rstate with
+        | readingMemory =>
+          have h0 : storedL s = [] := by
+            simp [hr, ho', hch, markers] at hI
+            rw [hI] at hlen
+            exact List.eq_nil_of_length_eq_zero hlen
+          simp only [storedL] at h0
+          simp [ghostStep, hS, inflight, inflightOf, storedL, hch, hr, h0]
+        | readingSpilled =>
+          have h1 : (storedL s).length = 1 := by
+            simp [hr, ho', hch, markers] at hI
+            rw [hI] at hlen
+            exact hlen
+          have hd : (storedL s).drop 1 = [] := by
+            apply List.eq_nil_of_length_eq_zero
+            simp [h1]
+          simp only [storedL] at hd
+          simp [ghostStep, hS, inflight, inflightOf, storedL, hch, hr, hd]
+      · cases hs
+  | sendDone =>
+    simp only [step1] at hs
+    split at hs
+    · cases hs
+    · split at hs
+      · rename_i ho hce
+        cases hs
+        have hch : s.chan = [] := by simpa using hce
+        refine ⟨by simp, ?_⟩
+        simp [ghostStep, hS, inflight, inflightOf, storedL, hch]
+      · cases hs
+  | dropSink =>
+    simp only [step1] at hs
+    split at hs
+    · cases hs
+    · cases hs
+      refine ⟨hc, ?_⟩
+      cases hcur : s.cur with
+      | none => simp [ghostStep, hS, inflight, storedL, hcur]
+      | some f => simp [ghostStep, hS, inflight, storedL, hcur]
+  | poll =>
+    simp only [step1] at hs
+    cases hr : s.rstate with
+    | readingMemory =>
+      rw [hr] at hs
+      simp only at hs
+      cases hch : s.chan with
+      | nil => rw [hch] at hs; cases hs
+      | cons m r =>
+        rw [hch] at hs hc
+        have hr0 : r = [] := by
+          cases r with
+          | nil => rfl
+          | cons a b => simp at hc
+        subst hr0
+        cases m <;> simp only at hs <;> cases hs <;>
+          simp [ghostStep, hS, inflight, inflightOf, hch, hr, storedL]
+        generalize s.finishedFiles.flatten ++ s.cur.getD [] = l
+        cases l <;> simp
+    | readingSpilled =>
+      rw [hr] at hs
+      simp only at hs
+      cases hf : s.finishedFiles with
+      | nil =>
+        rw [hf] at hs
+        simp only at hs
+        cases hcur : s.cur with
+        | none => rw [hcur] at hs; cases hs
+        | some f =>
+          rw [hcur] at hs
+          cases f with
+          | nil => cases hs
+          | cons b bs =>
+            cases hs
+            refine ⟨hc, ?_⟩
+            simp only [ghostStep, hS, inflight, inflightOf, storedL, hf, hcur, hr]
+            split <;> simp
+      | cons f fs =>
+        rw [hf] at hs
+        cases f with
+        | nil =>
+          cases hs
+          refine ⟨hc, ?_⟩
+          simp [ghostStep, hS, inflight, inflightOf, storedL, hf, hr]
+        | cons b bs =>
+          cases hs
+          refine ⟨hc, ?_⟩
+          simp only [ghostStep, hS, inflight, inflightOf, storedL, hf, hr]
+          split <;> simp
+
+theorem invF_run (s : St1) (g : Ghost) (ops : List Op1) (h : InvF s g) :
+    InvF (run1g s g ops).1 (run1g s g ops).2 := by
+  induction ops generalizing s g with
+  | nil => exact h
+  | cons op ops ih =>
+    simp only [run1g]
+    cases hs : step1 s op with
+    | none => exact ih s g h
+    | some s' => exact ih s' (ghostStep g op) (invF_step s s' g op h hs)
+
+/-- **per-(input, output) FIFO of the marker protocol** (single-producer pool = order-preserving mode
+    and single-input exchanges; code WITH the zero-row guard): after ANY schedule, what was delivered
+    followed by what is in flight (in the reader's order) is exactly what was sent, in sending order.
+    In particular the delivered sequence is a prefix of the sent sequence. -/
+theorem marker_protocol_spsc_fifo (ops : List Op1) :
+    (run1g init1 ghost0 ops).2.sent = (run1g init1 ghost0 ops).1.out ++ inflight (run1g init1 ghost0 ops).1 ∧
+    (run1g init1 ghost0 ops).1.out <+: (run1g init1 ghost0 ops).2.sent := by
+  have h := invF_run init1 ghost0 ops
+    (by simp [InvF, Inv1, init1, ghost0, stored1, markers, inflight, inflightOf, storedL])
+  exact ⟨h.2.2, by rw [h.2.2]; exact List.prefix_append _ _⟩
+
 end exchange
 
 end DfModel.Props.C10
